@@ -295,11 +295,39 @@ def adversarial(draw, allow_conflicts):
         else:
             stmts.append({"kind": "assign", "id": "s%d" % k, "assignee": target, "rhs": family_expr(f, target),
                           "loops": []})
+    # well-typedness of the argument-dependent built-ins: what they are applied to must get an array kind from
+    # somewhere (an array() call, or an assignment that mentions a variable that does) - transposing a variable whose
+    # only source is "itself plus a scalar" is an ill-typed program, on which inference fails or not depending on order
+    grounded = {s_["assignees"][0] for s_ in stmts if s_["kind"] == "call" and s_["f"] == "<builtin>array"}
+    changed = True
+    while changed:
+        changed = False
+        for s_ in stmts:
+            if s_["kind"] == "assign" and fam[s_["assignee"]] == "array" and s_["assignee"] not in grounded \
+                    and _mentions(s_["rhs"]) & grounded:
+                grounded.add(s_["assignee"])
+                changed = True
+            if s_["kind"] == "call" and s_["f"] in ("<builtin>transpose", "<builtin>elementwise_abs") \
+                    and s_["assignees"][0] not in grounded and s_["args"][0][1] in grounded:
+                grounded.add(s_["assignees"][0])
+                changed = True
+    for s_ in stmts:
+        if s_["kind"] == "call" and s_["f"] in ("<builtin>transpose", "<builtin>elementwise_abs") \
+                and s_["args"][0][1] not in grounded:
+            if grounded:
+                s_["args"][0] = ["var", sorted(grounded)[0]]
+            else:
+                s_["f"], s_["args"] = "<builtin>array", [["const", 3]]
     nph = draw(st.integers(1, 2))
     phases = [[] for _ in range(nph)]
     for s_ in stmts:
         phases[draw(st.integers(0, nph - 1))].append(s_)
     return {"phases": phases, "persistent": draw(st.booleans())}
+
+
+def _mentions(t):
+    from vlib import tree as T_
+    return T_.variables(t)
 
 
 def build_adversarial(case):
